@@ -1,6 +1,7 @@
+import Gv.Oracle.Det
 import Gv.Oracle.Mask
 import Gv.Oracle.Loop
 /-! oracle of property C15: only the handlers it needs -/
 open Gv Gv.Oracle
 
-def main : IO Unit := runOracle [MaskOps.handle]
+def main : IO Unit := runOracle [MaskOps.handle, DetOps.handle]
